@@ -199,11 +199,18 @@ fn scenario_for(prop: &str) -> Option<Box<dyn coord::Scenario>> {
         "C03" => Some(Box::new(scen::w1::W1Scenario { prop: "C03" })),
         "C04" => Some(Box::new(scen::w2::W2Scenario { prop: "C04" })),
         "C05" => Some(Box::new(scen::w2::W2Scenario { prop: "C05" })),
+        // one case in five: a full solve through the JSON solver config (the path of vrp-cli and of the bindings) which is
+        // ended by its generation / time / variation limits: returns normally, reports no more generations than configured
         "C07" => Some(Box::new(scen::Mixed {
-            major: Box::new(scen::crash::CrashScenario),
-            minor: Box::new(scen::lkh::LkhScenario),
-            every: 4,
-            minor_kind: "lkh",
+            major: Box::new(scen::Mixed {
+                major: Box::new(scen::crash::CrashScenario),
+                minor: Box::new(scen::lkh::LkhScenario),
+                every: 4,
+                minor_kind: "lkh",
+            }),
+            minor: Box::new(scen::w1::W1Scenario { prop: "C07" }),
+            every: 5,
+            minor_kind: "w1|restart",
         })),
         "C07lkh" => Some(Box::new(scen::lkh::LkhScenario)),
         "C08" => Some(Box::new(scen::Mixed {
